@@ -15,9 +15,11 @@ import (
 )
 
 type Receiver struct {
-	phy  lorawan.PHYPayload
-	prev string
-	N    int
+	phy    lorawan.PHYPayload
+	prev   string
+	prevOK bool
+	prevN  int
+	N      int
 }
 
 // CheckIsolation is called right after q was decoded from the private copy `in` of `wire`: the decoder
@@ -62,6 +64,13 @@ func Fresh(b []byte) (q lorawan.PHYPayload, out string) {
 func (rc *Receiver) Decode(s *cases.Set, r *cq.RNG, b []byte, fresh string) {
 	rc.N++
 	got := cq.Err
+	// what the caller may have kept of the previous frame: a shallow copy of the receiver (`frames = append(frames, rx)`)
+	kept := rc.phy
+	keptN := rc.prevN
+	keptText := ""
+	if rc.prevOK {
+		keptText = framefmt.Phy(kept, keptN)
+	}
 	cases.Begin(fmt.Sprintf("decode-into-used-receiver:%x", b), map[string]interface{}{"bytes": fmt.Sprintf("%x", b), "receiver_held_before": rc.prev})
 	defer cases.End()
 	func() {
@@ -74,15 +83,40 @@ func (rc *Receiver) Decode(s *cases.Set, r *cq.RNG, b []byte, fresh string) {
 			got = cq.Ok(framefmt.Phy(rc.phy, framefmt.DecodedFOptsLen(b)))
 		}
 	}()
+	if rc.prevOK {
+		func() {
+			defer func() { _ = recover() }()
+			if after := framefmt.Phy(kept, keptN); after != keptText {
+				s.Fail(cases.GoFail{Key: fmt.Sprintf("kept-frame-changed:%x", b),
+					What:   "a copy of the previously decoded frame, kept by the caller, changed when the next frame was decoded into the same receiver",
+					Replay: map[string]interface{}{"receiver_held_before": rc.prev, "then_decoded": fmt.Sprintf("%x", b), "kept_before": clip(keptText), "kept_after": clip(after)}})
+			}
+		}()
+	}
+	rc.prevOK = got != cq.Err && got != cq.Panic
+	rc.prevN = framefmt.DecodedFOptsLen(b)
 	if got != fresh {
 		s.Fail(cases.GoFail{Key: fmt.Sprintf("reused-receiver:%x", b),
 			What:   "decoding into a PHYPayload that held another frame gives a different outcome than decoding into a new one",
 			Replay: map[string]interface{}{"bytes": fmt.Sprintf("%x", b), "into_new_value": clip(fresh), "into_used_value": clip(got), "receiver_held_before": rc.prev}})
 	}
 	rc.prev = fmt.Sprintf("%x", b)
-	// what an application does with a received frame before the next one arrives
+	// what an application does with a received frame before the next one arrives (join-accepts are
+	// decrypted: the payload changes its Go type under the same MType)
 	func() {
 		defer func() { _ = recover() }()
+		if rc.phy.MHDR.MType == lorawan.JoinAccept && r.Bool() {
+			var k lorawan.AES128Key
+			copy(k[:], r.Bytes(16))
+			_ = rc.phy.DecryptJoinAcceptPayload(k)
+			rc.prev += " then DecryptJoinAcceptPayload"
+			return
+		}
+		if m, ok := rc.phy.MACPayload.(*lorawan.MACPayload); ok && r.Bool() {
+			// the receiving side restores the full 32-bit counter, as the Validate*DataMIC documentation asks
+			m.FHDR.FCnt |= uint32(1+r.Intn(0xffff)) << 16
+			rc.prev += " then FCnt set to its full 32-bit value"
+		}
 		switch r.Intn(4) {
 		case 0:
 			_ = rc.phy.DecodeFOptsToMACCommands()
